@@ -304,6 +304,8 @@ def finish(prop: str, tier: str, level: str, col: Collector, t0: float, rule: st
     for ln in lines:
         print(ln)
     if lines:
+        for r in col.inconclusive:
+            print(f"NOTE property={prop} (also inconclusive: {r})")
         print(f"{prop}: VIOLATED ({len(lines)} new signature(s)); evaluations={col.evaluations} "
               f"distinct={len(col.distinct)} wall={wall:.1f}s")
         return EXIT_VIOLATION
